@@ -513,17 +513,23 @@ func (v *UnixVolume) Untrash(loc string) (err error) {
 	for _, f := range files {
 		if strings.HasPrefix(f.Name(), prefix) {
 			foundTrash = true
+			// The untrashed copy carries the timestamp it
+			// had when it was trashed, and may replace a
+			// newer copy (written or touched after this one
+			// was trashed). Give it a current timestamp (as
+			// the S3 driver's Untrash does) before it becomes
+			// visible under the block's name, and hold the
+			// flock of any file it replaces during the
+			// rename (see WriteBlock), so that a concurrent
+			// Trash() either finishes first or sees a
+			// current timestamp: a recent Put/Touch stays
+			// protected from Trash for BlobSigningTTL.
+			ts := time.Now()
+			os.Chtimes(v.blockPath(f.Name()), ts, ts)
+			unlockTarget := v.lockExisting(v.blockPath(loc))
 			err = v.os.Rename(v.blockPath(f.Name()), v.blockPath(loc))
+			unlockTarget()
 			if err == nil {
-				// The untrashed copy carries the timestamp it
-				// had when it was trashed, and may have replaced
-				// a newer copy (written or touched after this
-				// one was trashed). Give it a current timestamp
-				// (as the S3 driver's Untrash does) so that a
-				// recent Put/Touch stays protected from Trash
-				// for BlobSigningTTL.
-				ts := time.Now()
-				os.Chtimes(v.blockPath(loc), ts, ts)
 				break
 			}
 		}
@@ -534,6 +540,23 @@ func (v *UnixVolume) Untrash(loc string) (err error) {
 	}
 
 	return
+}
+
+// lockExisting takes the flock of the file at path, if there is one,
+// and returns a func that releases it.
+func (v *UnixVolume) lockExisting(path string) func() {
+	f, err := v.os.OpenFile(path, os.O_RDWR|os.O_APPEND, 0644)
+	if err != nil {
+		return func() {}
+	}
+	if err := v.lockfile(f); err != nil {
+		f.Close()
+		return func() {}
+	}
+	return func() {
+		v.unlockfile(f)
+		f.Close()
+	}
 }
 
 // blockDir returns the fully qualified directory name for the directory
